@@ -46,7 +46,7 @@ CLAIMED["C08"] = dict(
 CLAIMED["C09"] = dict(
     category="exploration",
     technique="exhaustive enumeration of permutations, paddings, splits and ordered subsets per model family; differential oracle against the original / directly built model",
-    text="For every model family all n! relabellings, every zero-mole padding position, every split and every ordered subset of component indices (with default and non-default option structs) are built as real models and compared with the original on several states, including the pure-component helper algorithms that work through Components::subset.",
+    text="For every model family all n! relabellings, every zero-mole padding position, every split and every ordered subset of component indices (with default and non-default option structs) are built as real models and compared with the original on several states, including the pure-component helper algorithms that work through Components::subset. Families with a spherical + chain SAFT-VR Mie mixture, SAFT-VRQ Mie components of different Feynman-Hibbs orders and an ePC-SAFT solvent whose permittivity table is given unsorted are included.",
     design_ref="§5 C09",
 )
 
@@ -75,7 +75,7 @@ CLAIMED["C15"] = dict(
 CLAIMED["C14"] = dict(
     category="exploration",
     technique="exhaustive enumeration of ordered query subsets x identifier kinds x file orders x binary orientations; all segment orders of chemical records; reference re-implementation and differential oracles",
-    text="For the small parameter files every ordered query subset up to size 3-4, every identifier kind the records carry, three file orders and four variants of the binary file (original, every record's identifiers swapped, reversed, absent) are pushed through from_json / from_multiple_json and compared with the raw records; duplicates and missing names must be rejected; every gc substance is compared with a reference implementation of the combining rules and rebuilt in every order of its segment list (bonds relabelled) for homo- and heterosegmented models; every record of every pure file is serialised, re-read and compared bit-for-bit in behaviour. Group-contribution assembly must succeed exactly when the raw JSON says it can (all groups present, at most one polar/associating group); both heterosegmented builders keep the query order.",
+    text="For the small parameter files every ordered query subset up to size 3-4, every identifier kind the records carry, three file orders and four variants of the binary file (original, every record's identifiers swapped, reversed, absent) are pushed through from_json / from_multiple_json and compared with the raw records; duplicates and missing names must be rejected; every gc substance is compared with a reference implementation of the combining rules and rebuilt in every order of its segment list (bonds relabelled) for homo- and heterosegmented models; every record of every pure file is serialised, re-read and compared bit-for-bit in behaviour. Group-contribution assembly must succeed exactly when the raw JSON says it can (all groups present, at most one polar/associating group); both heterosegmented builders keep the query order. Every chemical record survives a serde round trip (groups, bond graph, heterosegmented model built from it).",
     design_ref="§5 C14",
 )
 
@@ -91,14 +91,14 @@ CLAIMED["C03"] = dict(
     category="fault_enumeration",
     engine="deviation",
     technique="exhaustive enumeration of all constructor input subsets x poisoned values against a reference decision table; (T, p, hint, initial density) lattice; injected failures of the two shadowed density iterations",
-    text="All 2^8 / 2^11 subsets of the optional constructor inputs for one and two components, each with every poisoned value in every present input, are compared with a decision table written from the documented hierarchy (outcome class, echo of every given quantity, iterative targets); the Gross-Sadowski records are swept over the (T_r, p_r) lattice with every density initialisation (success clause, pressure reproduced, stable root by Gibbs energy, requested branch when an independent root scan shows both exist), the two density iterations of the no-hint path are forced to fail in all combinations, and the Newton constructors are asked for the specification of reachable states. The (T, p) lattice has an extra band of reduced temperatures just below T_c (positive liquid spinodal pressure).",
+    text="All 2^8 / 2^11 subsets of the optional constructor inputs for one and two components, each with every poisoned value in every present input, are compared with a decision table written from the documented hierarchy (outcome class, echo of every given quantity, iterative targets); the Gross-Sadowski records are swept over the (T_r, p_r) lattice with every density initialisation (success clause, pressure reproduced, stable root by Gibbs energy, requested branch when an independent root scan shows both exist), the two density iterations of the no-hint path are forced to fail in all combinations, and the Newton constructors are asked for the specification of reachable states. The (T, p) lattice has an extra band of reduced temperatures just below T_c (positive liquid spinodal pressure). (T, p, V, x) constructions with mole fractions that are not normalised (scaled by 0.5, 2, 10) through new_npvx and the StateBuilder reproduce p, T, V and x / sum(x).",
     design_ref="§5 C03, §4.3",
 )
 
 CLAIMED["C05"] = dict(
     category="exploration",
     technique="bounded-exhaustive enumeration of all hydrocarbon record pairs x (T, x, pressure fraction) lattice x {bubble, dew at T and p, flash, diagrams}; equilibrium conditions recomputed outside the solvers",
-    text="All unordered pairs of the 51 shipped PC-SAFT hydrocarbon records with T_c ratio < 1.8 are solved on the (T, x) lattice for bubble and dew points at given T and p and for flashes strictly inside the envelope (success clause for ratio < 1.5), plus binary_vle / bubble- and dew-point lines, other model families, a ternary, LLE and the heteroazeotrope; for every returned result common T and p, equality of x_i phi_i, distinctness of the phases, exact echo of the specification, p_bub >= p_dew and the material balance are recomputed. Flash failures on the pinned tree are listed per (pair, T, x, pressure fraction). Every interior flash is also warm-started from that equilibrium at four neighbouring (T, p) through both entry points; bubble and dew points are re-solved with four non-default (inner, outer) option pairs and compared with the default answer; the isobaric LLE diagram must lie on its temperature grid.",
+    text="All unordered pairs of the 51 shipped PC-SAFT hydrocarbon records with T_c ratio < 1.8 are solved on the (T, x) lattice for bubble and dew points at given T and p and for flashes strictly inside the envelope (success clause for ratio < 1.5), plus binary_vle / bubble- and dew-point lines, other model families, a ternary, LLE and the heteroazeotrope; for every returned result common T and p, equality of x_i phi_i, distinctness of the phases, exact echo of the specification, p_bub >= p_dew and the material balance are recomputed. Flash failures on the pinned tree are listed per (pair, T, x, pressure fraction). Every interior flash is also warm-started from that equilibrium at four neighbouring (T, p) through both entry points; bubble and dew points are re-solved with four non-default (inner, outer) option pairs and compared with the default answer; the isobaric LLE diagram must lie on its temperature grid. The pressure-specified heteroazeotrope is solved from exact, perturbed and flash compositions (common T, specified p, isofugacity, temperature of the temperature-specified point reproduced).",
     design_ref="§5 C05",
 )
 
@@ -120,7 +120,7 @@ CLAIMED["C12"] = dict(
     category="fault_enumeration",
     engine="deviation",
     technique="deviation-bounded exploration: every non-empty subset of a phase diagram's solver calls forced to fail through injection hooks (2^(n-1)-1 histories per diagram), plus an exhaustive guess lattice; differential oracle against the stand-alone solve",
-    text="Pure diagrams (4, 6, 9 points) and binary_vle / bubble- / dew-point lines (5-8 points) are re-run with every non-empty subset of their solver calls forced to fail by the H3 hooks: exactly the forced points must go missing and every surviving point must equal the undisturbed point, which in turn must equal the stand-alone solve without guess; nested numbers of points must share points; pure, bubble/dew and flash calculations are repeated over a lattice of pressure / temperature / composition guesses within a factor 3 and with cascade stages forced to fail, and compared with the result obtained without guess. Pure-component guesses include states AT the requested temperature that are not the solution (two phases at 0.8/0.95/1.05 p_sat, coarse-tolerance solutions).",
+    text="Pure diagrams (4, 6, 9 points) and binary_vle / bubble- / dew-point lines (5-8 points) are re-run with every non-empty subset of their solver calls forced to fail by the H3 hooks: exactly the forced points must go missing and every surviving point must equal the undisturbed point, which in turn must equal the stand-alone solve without guess; nested numbers of points must share points; pure, bubble/dew and flash calculations are repeated over a lattice of pressure / temperature / composition guesses within a factor 3 and with cascade stages forced to fail, and compared with the result obtained without guess. Pure-component guesses include states AT the requested temperature that are not the solution (two phases at 0.8/0.95/1.05 p_sat, coarse-tolerance solutions). Mixture guesses are also enumerated at 0.97 and 0.99 of the lower critical temperature (guesses next to the solution only, since two dew points exist there).",
     design_ref="§5 C12, §4.3",
 )
 
@@ -142,7 +142,7 @@ CLAIMED["C17"] = dict(
 CLAIMED["C18"] = dict(
     category="exploration",
     technique="exhaustive enumeration of all solver chains up to depth 3 over a 6-letter alphabet x tolerances x initial profiles x specifications x systems; stationarity recomputed, observables compared across all chains",
-    text="Every sequence of up to three solver stages over {picard, picard-log, anderson, anderson-log, newton, newton-log} (6 + 36 + 216 chains) is run with two final tolerances on planar interfaces and slit / cylindrical / spherical pores from tanh, pDGT and previous-solution starts; whenever solve reports success the Euler-Lagrange residual is recomputed, positivity and the solver log are checked, the bulk state must be unchanged for the default specification, the path-independent observables (surface tension, adsorbed amount, grand potential) must agree across all successful chains, and specified particle numbers must be reproduced. 18 two-stage chains whose tight last stage is cut off after 3 iterations are enumerated in both tiers; Moles and TotalMoles specifications at N0 and 1.1 N0 are solved for a binary mixture and a heterosegmented molecule in a slit pore.",
+    text="Every sequence of up to three solver stages over {picard, picard-log, anderson, anderson-log, newton, newton-log} (6 + 36 + 216 chains) is run with two final tolerances on planar interfaces and slit / cylindrical / spherical pores from tanh, pDGT and previous-solution starts; whenever solve reports success the Euler-Lagrange residual is recomputed, positivity and the solver log are checked, the bulk state must be unchanged for the default specification, the path-independent observables (surface tension, adsorbed amount, grand potential) must agree across all successful chains, and specified particle numbers must be reproduced. 18 two-stage chains whose tight last stage is cut off after 3 iterations are enumerated in both tiers; Moles and TotalMoles specifications at N0 and 1.1 N0 are solved for a binary mixture and a heterosegmented molecule in a slit pore. A Moles specification with changed component ratio is solved and the profile re-solved at the returned bulk state with the default specification must not move.",
     design_ref="§5 C18",
 )
 
